@@ -21,13 +21,13 @@ VARIABLE l
 tvars == <<vars, l>>
 S(x) == {x[k] : k \in DOMAIN x}
 
-EnvOf(r) == [ctx |-> IF "ctx" \in DOMAIN r THEN r.ctx ELSE "wide", tries |-> IF "tries" \in DOMAIN r THEN r.tries ELSE 1, hist |-> IF "hist" \in DOMAIN r THEN r.hist ELSE "none",
+EnvOf(r) == [ctx |-> IF "ctx" \in DOMAIN r THEN r.ctx ELSE "wide", req |-> IF "req" \in DOMAIN r THEN r.req ELSE "full", tries |-> IF "tries" \in DOMAIN r THEN r.tries ELSE 1, hist |-> IF "hist" \in DOMAIN r THEN r.hist ELSE "none",
              loaded |-> {}, hdone |-> TRUE]
 BundleOf(r) == [cas |-> S(r.bundle.cas), lay |-> r.bundle.lay]
 LblOf(e) ==
   CASE e.op = "contact"   -> [NoLbl EXCEPT !.op = "contact", !.ep = e.ep, !.hs = e.hs, !.ver = e.ver, !.cc = e.cc,
                                            !.rpc = e.rpc, !.same = e.same]
-    [] e.op = "return"    -> [NoLbl EXCEPT !.op = "return", !.err = e.err, !.pan = e.pan, !.hang = e.hang, !.certs = e.certs, !.cm = e.cm]
+    [] e.op = "return"    -> [NoLbl EXCEPT !.op = "return", !.err = e.err, !.pan = e.pan, !.hang = e.hang, !.kept = (IF "kept" \in DOMAIN e THEN e.kept ELSE TRUE), !.certs = e.certs, !.cm = e.cm]
     [] e.op = "construct" -> [NoLbl EXCEPT !.op = "construct", !.err = e.err]
     [] e.op = "priorcall" -> [NoLbl EXCEPT !.op = "priorcall", !.err = e.err]
     [] e.op = "otherconf" -> [NoLbl EXCEPT !.op = "otherconf", !.err = e.err]
